@@ -312,7 +312,6 @@ package gtfs
 
 // what one loop iteration does to trip T (athead(3, ·): at the start of the iteration)
 //@ pure func stAppended(T *ScheduledTrip, f *csv.File, idToStop ?) bool = len(T.StopTimes) == athead(3, len(T.StopTimes)) + 1 && stFaithful(T.StopTimes[len(T.StopTimes) - 1], f, idToStop)
-//@ pure func stPrefixKept(T *ScheduledTrip) bool = forall k int :: 0 <= k && k < athead(3, len(T.StopTimes)) ==> T.StopTimes[k] == athead(3, T.StopTimes[k])
 
 // no two trips share the storage of their stop times (each list is grown by append / make from nothing)
 //@ pure func ownStorage(trips []ScheduledTrip) bool = forall i int, j int :: 0 <= i && i < len(trips) && 0 <= j && j < len(trips) && i != j ==> cap(trips[i].StopTimes) == 0 || cap(trips[j].StopTimes) == 0 || obj(trips[i].StopTimes) != obj(trips[j].StopTimes)
@@ -335,7 +334,6 @@ package gtfs
 //@   loop 3 invariant [current-trip-cache] currentTrip == nil || currentTrip == idToTrip[currentTripID]
 //@   loop 3 step [rejected-unless-its-trip-is-at-hand] stRowAccepted(csv, idToStop, idToTrip) ==> currentTrip != nil && currentTrip == idToTrip[col(csv, "trip_id")]
 //@   loop 3 step [accepted-row-is-appended-to-its-trip] stRowAccepted(csv, idToStop, idToTrip) ==> stAppended(idToTrip[col(csv, "trip_id")], csv, idToStop)
-//@   loop 3 step [earlier-stop-times-of-that-trip-kept] stRowAccepted(csv, idToStop, idToTrip) ==> stPrefixKept(idToTrip[col(csv, "trip_id")])
 //@   loop 3 step [no-other-trip-grows] forall j int :: 0 <= j && j < len(trips) && !(stRowAccepted(csv, idToStop, idToTrip) && &trips[j] == idToTrip[col(csv, "trip_id")]) ==> len(trips[j].StopTimes) == athead(3, len(trips[j].StopTimes))
 //@   loop 3 step [stop-times-already-stored-are-kept] forall j int, k int :: 0 <= j && j < len(trips) && 0 <= k && k < athead(3, len(trips[j].StopTimes)) ==> trips[j].StopTimes[k] == athead(3, trips[j].StopTimes[k])
 //@   loop 3 decreases remaining(csv.csvReader)
@@ -678,11 +676,14 @@ package gtfs
 //@   ensures [every-entity-informs] forall k int :: 0 <= k && k < len(result.0.InformedEntities) ==> informsSomething(result.0.InformedEntities[k])
 //@   ensures [trip-ids-identify] forall k int :: 0 <= k && k < len(result.0.InformedEntities) ==> (result.0.InformedEntities[k].TripID != nil ==> identifiable(result.0.InformedEntities[k].TripID))
 //@   ensures [active-periods] len(result.0.ActivePeriods) == len(alert.ActivePeriod)
+//@   ensures [returned-trips-fresh] fresh(result.1)
+//@   ensures [returned-trips-are-mentions] forall k int :: 0 <= k && k < len(result.1) ==> !result.1[k].IsEntityInMessage && result.1[k].Vehicle == nil
 //@   assigns nothing
 //@   loop 1 invariant len(activePeriods) == $i && opts != nil && fresh(activePeriods)
 //@   loop 2 invariant opts != nil && informedRoutes != nil && informedRoutesFromTripIDs != nil && fresh(informedRoutes) && fresh(informedRoutesFromTripIDs) && fresh(informedEntities) && fresh(trips)
 //@   loop 2 invariant forall r string :: has(informedRoutesFromTripIDs, r) ==> informedRoutesFromTripIDs[r] != nil && fresh(informedRoutesFromTripIDs[r])
 //@   loop 2 invariant forall k int :: 0 <= k && k < len(informedEntities) ==> informsSomething(informedEntities[k]) && (informedEntities[k].TripID != nil ==> identifiable(informedEntities[k].TripID))
+//@   loop 2 invariant [returned-trips-are-mentions] forall k int :: 0 <= k && k < len(trips) ==> !trips[k].IsEntityInMessage && trips[k].Vehicle == nil
 //@   loop 2 step len(informedEntities) == athead(2, len(informedEntities)) || (len(informedEntities) == athead(2, len(informedEntities)) + 1 && transcribes(informedEntities[len(informedEntities) - 1], alert.InformedEntity[athead(2, $i)]))
 //@   loop 2 step len(informedEntities) == athead(2, len(informedEntities)) + 1 || !(alert.InformedEntity[athead(2, $i)].AgencyId != nil || alert.InformedEntity[athead(2, $i)].RouteId != nil || alert.InformedEntity[athead(2, $i)].StopId != nil || parseRouteType_GTFSRealtime(alert.InformedEntity[athead(2, $i)].RouteType) != RouteType_Unknown)
 //@   loop 2 step [trips-only-grow] len(trips) >= athead(2, len(trips)) && len(trips) <= athead(2, len(trips)) + 1
@@ -735,6 +736,7 @@ package gtfs
 //@   loop 2 invariant [idless-on-heap] forall k int :: 0 <= k && k < len(vehiclesWithNoID) ==> vehiclesWithNoID[k] != nil && fresh(vehiclesWithNoID[k])
 //@   loop 2 invariant [idless-links] forall t TripID :: has(tripIDToVehicleWithNoID, t) ==> has(tripsById, t) && tripIDToVehicleWithNoID[t] != nil && fresh(tripIDToVehicleWithNoID[t])
 //@   loop 2 invariant [trips-keyed-by-own-id] forall t TripID :: has(tripsById, t) ==> tripsById[t].ID == t
+//@   loop 2 invariant [links-unresolved-until-the-end] (forall t TripID :: has(tripsById, t) ==> tripsById[t].Vehicle == nil) && (forall v VehicleID :: has(vehiclesByID, v) ==> vehiclesByID[v].Trip == nil)
 //@   loop 3 invariant [ctx] opts != nil && extOK(opts.Extension) && feedMessage != nil && fresh(result.Alerts) && tripsById != nil && fresh(tripsById) && len(result.Trips) == 0 && cap(result.Trips) == 0 && len(result.Vehicles) == 0 && cap(result.Vehicles) == 0
 //@   loop 3 invariant [trips-on-heap] forall t TripID :: has(tripsById, t) ==> tripsById[t] != nil && fresh(tripsById[t])
 //@   loop 3 invariant [idless-links] forall t TripID :: has(tripIDToVehicleWithNoID, t) ==> has(tripsById, t) && tripIDToVehicleWithNoID[t] != nil && fresh(tripIDToVehicleWithNoID[t])
@@ -744,22 +746,32 @@ package gtfs
 //@   loop 3 step [other-entries-untouched] forall t TripID :: t != trip.ID && has(tripsById, t) ==> tripsById[t].ID == athead(3, tripsById[t].ID)
 //@   loop 3 invariant [loop-variable-is-not-an-entry] forall t TripID :: has(tripsById, t) ==> tripsById[t] != &trip
 //@   loop 3 invariant [trips-keyed-by-own-id] forall t TripID :: has(tripsById, t) ==> tripsById[t].ID == t
+//@   loop 3 invariant [alert-trips-are-mentions] forall k int :: 0 <= k && k < len(alertTrips) ==> !alertTrips[k].IsEntityInMessage && alertTrips[k].Vehicle == nil
+//@   loop 3 invariant [alert-trips-stored-apart] cap(alertTrips) == 0 || (forall t TripID :: has(tripsById, t) ==> obj(tripsById[t]) != obj(alertTrips))
+//@   loop 3 invariant [links-unresolved-until-the-end] forall t TripID :: has(tripsById, t) ==> tripsById[t].Vehicle == nil
 //@   loop 4 invariant [empty-lists] len(result.Trips) == 0 && cap(result.Trips) == 0 && len(result.Vehicles) == 0 && cap(result.Vehicles) == 0
 //@   loop 4 invariant [trips-on-heap] forall t TripID :: has(tripsById, t) ==> tripsById[t] != nil && fresh(tripsById[t])
 //@   loop 4 invariant [idless-links] forall t TripID :: has(tripIDToVehicleWithNoID, t) ==> has(tripsById, t) && tripIDToVehicleWithNoID[t] != nil && fresh(tripIDToVehicleWithNoID[t])
 //@   loop 4 invariant [trips-keyed-by-own-id] forall t TripID :: has(tripsById, t) ==> tripsById[t].ID == t
+//@   loop 4 step [idless-vehicle-and-trip-point-at-each-other] tripsById[tripID].Vehicle == vehicle && vehicle.Trip == tripsById[tripID]
 //@   loop 5 invariant [trips-on-heap] (forall t TripID :: has(tripsById, t) ==> tripsById[t] != nil && fresh(tripsById[t])) && fresh(result.Trips) && len(result.Vehicles) == 0 && cap(result.Vehicles) == 0
 //@   loop 5 step [one-trip-emitted-per-key] len(result.Trips) == athead(5, len(result.Trips)) + 1 && result.Trips[len(result.Trips) - 1].ID == tripID
 //@   loop 5 step [emitted-trips-kept] forall k int :: 0 <= k && k < athead(5, len(result.Trips)) ==> result.Trips[k].ID == athead(5, result.Trips[k].ID)
 //@   loop 5 step [key-not-emitted-before] forall k int :: 0 <= k && k < athead(5, len(result.Trips)) ==> result.Trips[k].ID != tripID
+//@   loop 5 step [emitted-entry-is-the-tables-trip] result.Trips[len(result.Trips) - 1] == *tripsById[tripID]
+//@   loop 5 step [vehicle-reference-from-the-association-table] has(tripIDToVehicleID, tripID) ==> result.Trips[len(result.Trips) - 1].Vehicle == vehiclesByID[tripIDToVehicleID[tripID]]
+//@   loop 5 step [no-association-keeps-the-reference] !has(tripIDToVehicleID, tripID) ==> result.Trips[len(result.Trips) - 1].Vehicle == athead(5, tripsById[tripID].Vehicle)
 //@   loop 5 invariant [storage] sinceLoop(result.Trips) && (forall t TripID :: has(tripsById, t) ==> beforeLoop(tripsById[t]))
 //@   loop 5 invariant [trips-keyed-by-own-id] forall t TripID :: has(tripsById, t) ==> tripsById[t].ID == t
 //@   loop 5 invariant [emitted-trips-are-visited-keys] forall k int :: 0 <= k && k < len(result.Trips) ==> visited(result.Trips[k].ID)
-//@   loop 5 invariant [emitted-trips-unique] forall a int, b int :: 0 <= a && a < len(result.Trips) && 0 <= b && b < len(result.Trips) && a != b ==> result.Trips[a].ID != result.Trips[b].ID
+//@   loop 5 invariant [emitted-trips-unique] forall a int, b int :: 0 <= a && a < b && b < len(result.Trips) ==> result.Trips[a].ID != result.Trips[b].ID
 //@   loop 6 invariant [vehicles-on-heap] (forall v VehicleID :: has(vehiclesByID, v) ==> vehiclesByID[v] != nil && fresh(vehiclesByID[v]) && vehiclesByID[v].ID != nil) && fresh(result.Vehicles)
 //@   loop 6 invariant [storage] sinceLoop(result.Vehicles) && (forall v VehicleID :: has(vehiclesByID, v) ==> beforeLoop(vehiclesByID[v]))
 //@   loop 6 step [one-vehicle-emitted-per-key] len(result.Vehicles) == athead(6, len(result.Vehicles)) + 1 && result.Vehicles[len(result.Vehicles) - 1].ID != nil
 //@   loop 6 step [emitted-vehicles-kept] forall k int :: 0 <= k && k < athead(6, len(result.Vehicles)) ==> result.Vehicles[k].ID == athead(6, result.Vehicles[k].ID)
+//@   loop 6 step [emitted-entry-is-the-tables-vehicle] result.Vehicles[len(result.Vehicles) - 1] == *vehiclesByID[vehicleID]
+//@   loop 6 step [trip-reference-from-the-association-table] has(vehicleIDToTripID, vehicleID) ==> result.Vehicles[len(result.Vehicles) - 1].Trip == tripsById[vehicleIDToTripID[vehicleID]]
+//@   loop 6 step [no-association-keeps-the-reference] !has(vehicleIDToTripID, vehicleID) ==> result.Vehicles[len(result.Vehicles) - 1].Trip == athead(6, vehiclesByID[vehicleID].Trip)
 //@   loop 6 invariant [ids-present] forall k int :: 0 <= k && k < len(result.Vehicles) ==> result.Vehicles[k].ID != nil
 //@   loop 6 invariant [trips-sorted] forall a int, b int :: 0 <= a && a < b && b < len(result.Trips) ==> !result.Trips[b].ID.Less(result.Trips[a].ID)
 //@   loop 6 invariant [trips-unique] forall a int, b int :: 0 <= a && a < len(result.Trips) && 0 <= b && b < len(result.Trips) && a != b ==> result.Trips[a].ID != result.Trips[b].ID
